@@ -1,115 +1,5 @@
-// C07 - every request completes exactly once, and only by a reply from the entity asked.
-// Single inductive steps of the REAL QXmpp::Private::OutgoingIqManager (src/client/QXmppOutgoingClient.cpp) from an arbitrary
-// valid request table (<= 2 outstanding requests) under one arbitrary event, compared with the reference transition of the
-// property text.  Environment: request-table model (vp_iqmap.h), Task/Promise shadow, DOM tree model, stream layer cut at
-// StreamAckManager::send (outcome chosen by the solver), packet serialisation cut, logging = no-op.
-#include "vp_harness.h"
-#include "vp_dom.h"
-#include "vp_iqmap.h"
-#include "client/QXmppOutgoingClient.cpp"
-#include "vp_iqmap_impl.h"
-#include "QXmppConfiguration.h"
-#include <optional>
-
-using namespace QXmpp;
-using namespace QXmpp::Private;
-
-// ---------------------------------------------------------------- environment written in C++ (cut points)
-// stream layer: what happens to the packet is outside C07 (C09); only the reported outcome matters
-static int g_sendCalls;
-static unsigned g_sendMode;                                        // 0: reports success at once, 1: reports an error at once, 2: stays pending
-static std::optional<QXmppPromise<SendResult>> g_pendingSend;
-QXmppTask<SendResult> StreamAckManager::send(QXmppPacket &&)
-{
-    g_sendCalls++;
-    QXmppPromise<SendResult> p;
-    if (g_sendMode == 0) p.finish(SendSuccess { vp_bool() });
-    else if (g_sendMode == 1) p.finish(QXmppError { QString(), SendError::SocketWriteError });
-    else g_pendingSend = p;
-    return p.task();
-}
-// packet serialisation is not the subject: packets carry no bytes here
-QXmppPacket::QXmppPacket(const QXmppNonza &, QXmppPromise<SendResult> p) : m_promise(std::move(p)), m_isXmppStanza(true) { }
-QXmppPacket::QXmppPacket(const QByteArray &, bool isStanza, QXmppPromise<SendResult> p) : m_promise(std::move(p)), m_isXmppStanza(isStanza) { }
-// the account's bare JID is an input of the implicit-addressee rule
-extern "C" { QString *vp_jidBare; }
-QString QXmppConfiguration::jidBare() const { return *vp_jidBare; }
-// QXmppUtils::generateStanzaUuid is modelled in models.c: it hands out these (arbitrary) strings
-extern "C" { QString *vp_uuid[2]; unsigned vp_uuid_n; unsigned vp_cfg(); }
-// ~QXmppOutgoingClient: flushing the stream-management cache is C09's subject
-static int g_resetCacheCalls;
-void StreamAckManager::resetCache() { g_resetCacheCalls++; }
-
-// ---------------------------------------------------------------- fixture
-static_assert(sizeof(OutgoingIqManager) == 16 + sizeof(VpIqMap), "layout of OutgoingIqManager: { l, &streamAckManager, m_requests }");
-static_assert(sizeof(QXmppOutgoingClient) == 24, "layout of QXmppOutgoingClient: { QObject, d }");
-struct Obs { int done; int kind; bool sendError; int sendErrorValue; bool stanzaError; QDomElement el; };
-static Obs obs[3];
-// typed but unconstructed storage (a union member is not constructed implicitly): unlike a char buffer it keeps pointers that the
-// real code stores into the object as pointers for the solver
-template<typename T> union VpTyped { T v; VpTyped() { } ~VpTyped() { } T *p() { return &v; } T *operator->() { return &v; } };
-struct Fixture {
-    VpTyped<QXmppOutgoingClientPrivate> priv;   // only iqManager is constructed; streamAckManager.send / config.jidBare are cut
-    VpTyped<QXmppOutgoingClient> client;        // only `d` is set
-    VpRaw<QXmppLoggable> logger;                // raw storage: never touched (logMessage() is a no-op model)
-    OutgoingIqManager *mgr;
-    VpIqMap *map;
-    bool used[3];
-    QString key[3], jid[3];
-    std::optional<QXmppTask<IqResult>> task[3];
-    bool early;
-
-    Fixture()
-    {
-        mgr = new (&priv->iqManager) OutgoingIqManager(logger.p(), priv->streamAckManager);
-        map = reinterpret_cast<VpIqMap *>(reinterpret_cast<char *>(mgr) + 16);
-        *reinterpret_cast<void **>(reinterpret_cast<char *>(client.p()) + 16) = priv.p();
-        // arbitrary valid table: ids non-empty and distinct, addressees non-empty, promises unfinished.
-        // (all slots hold constructed objects so that every pointer the solver sees is concrete; `used` decides what exists)
-        for (int i = 0; i < VP_MAP_CAP; i++) {
-            key[i] = vpSymStringNonEmpty(2);
-            jid[i] = vpSymStringNonEmpty(3);
-            new (map->slot(i)) VpIqMap::value_type(key[i], IqState { {}, jid[i] });
-            used[i] = i < 2 ? vp_bool() : false;
-            map->t->s[i]->used = used[i];
-            task[i].emplace(map->slot(i)->second.interface.task());
-        }
-        vp_assume(!(used[0] && used[1] && key[0] == key[1]));
-        // the caller may or may not have attached its continuation already
-        early = vp_cfg() & 1;
-        if (early) watchAll();
-    }
-    void watch(int i)
-    {
-        task[i]->then(nullptr, [i](IqResult &&r) {
-            obs[i].done++;
-            obs[i].kind = int(r.index());
-            if (auto *e = std::get_if<QXmppError>(&r)) {
-                auto *se = std::any_cast<SendError>(&e->error);
-                obs[i].sendError = se != nullptr;
-                obs[i].sendErrorValue = se ? int(*se) : -1;
-                obs[i].stanzaError = std::any_cast<QXmppStanza::Error>(&e->error) != nullptr;
-            } else {
-                obs[i].el = std::get<QDomElement>(r);
-            }
-        });
-    }
-    void watchAll() { for (int i = 0; i < 2; i++) watch(i); }
-    void settle() { if (!early) watchAll(); }
-    // request i of the pre-state is still pending, unchanged
-    void untouched(int i)
-    {
-        vp_assert(!task[i]->isFinished() && obs[i].done == 0, "C07 a request that got no valid reply stays pending (not completed, not cancelled)");
-        auto it = map->find(key[i]);
-        vp_assert(it != map->end() && mgr->hasId(key[i]), "C07 a request that got no valid reply stays in the table");
-        if (it != map->end()) vp_assert(it->second.jid == jid[i], "C07 recorded addressee of a pending request is unchanged");
-    }
-    void completedOnce(int i)
-    {
-        vp_assert(task[i]->isFinished() || obs[i].done == 1, "C07 request completed");
-        vp_assert(!mgr->hasId(key[i]), "C07 completed request is erased from the table");
-    }
-};
+// C07 step harnesses of OutgoingIqManager (see c07_common.h)
+#include "c07_common.h"
 
 // ---------------------------------------------------------------- event: an incoming stanza
 extern "C" void h_stanza()
@@ -153,7 +43,7 @@ extern "C" void h_stanza()
 extern "C" void h_session()
 {
     Fixture f;
-    unsigned ev = vp_u8() % 4;
+    unsigned ev = (vp_cfg() >> 4) & 3;       // which event: case split per instance
     bool flag = vp_bool(), cancel;
     if (ev == 0) {
         SessionBegin s { vp_bool(), flag, vp_bool(), vp_bool(), AuthenticationMethod(vp_u8() % 3) };
@@ -281,39 +171,3 @@ extern "C" void h_finish()
     }
 }
 
-// ---------------------------------------------------------------- continuation chaining: raw reply -> typed result (QXmppFutureUtils_p.h)
-static int chainRuns, chainKind;
-static bool chainSendError;
-extern "C" void h_chain()
-{
-    static char ctxbuf[16];
-    QObject *ctx = reinterpret_cast<QObject *>(ctxbuf);
-    bool early = vp_cfg() & 1, typed = vp_cfg() & 2;
-    bool asError = vp_bool();
-    QString tag = QStringLiteral("iq"), ns, nId = QStringLiteral("id"), nType = QStringLiteral("type"), id = vpSymString(2), ty = QStringLiteral("result");
-    QDomElement el; vp_dom_new(&el, &tag, &ns); vp_dom_set_attr(&el, &nId, &id); vp_dom_set_attr(&el, &nType, &ty);
-    QXmppPromise<IqResult> p;
-    int before = vp_task_completions;
-    auto fin = [&] { if (asError) p.finish(QXmppError { QString(), SendError::Disconnected }); else p.finish(el); };
-    if (!typed) {
-        // the instantiation of QXmppClient::sendGenericIq (src/client/QXmppClient.cpp)
-        using EmptyResult = std::variant<QXmpp::Success, QXmppError>;
-        auto t = chainIq(p.task(), ctx, [](const QXmppIq &) -> EmptyResult { return QXmpp::Success(); });
-        auto k = [](EmptyResult &&r) { chainRuns++; chainKind = int(r.index()); if (auto *e = std::get_if<QXmppError>(&r)) chainSendError = std::any_cast<SendError>(&e->error) != nullptr; };
-        if (early) { t.then(ctx, k); vp_assert(chainRuns == 0 && !t.isFinished(), "C07 chained task is not complete before the reply"); fin(); }
-        else { fin(); vp_assert(t.isFinished(), "C07 chained task completes with the raw one"); t.then(ctx, k); }
-    } else {
-        // the form used by the bundled managers: chainIq<std::variant<Iq, QXmppError>>(client->sendIq(...), this)
-        using R = std::variant<QXmppIq, QXmppError>;
-        auto t = chainIq<R>(p.task(), ctx);
-        static bool idOk;
-        auto k = [id](R &&r) { chainRuns++; chainKind = int(r.index()); if (auto *e = std::get_if<QXmppError>(&r)) chainSendError = std::any_cast<SendError>(&e->error) != nullptr; else idOk = std::get<QXmppIq>(r).id() == id; };
-        if (early) { t.then(ctx, k); vp_assert(chainRuns == 0 && !t.isFinished(), "C07 chained task is not complete before the reply"); fin(); }
-        else { fin(); vp_assert(t.isFinished(), "C07 chained task completes with the raw one"); t.then(ctx, k); }
-        if (!asError) vp_assert(idOk, "C07 the typed result is parsed from the reply element");
-    }
-    vp_assert(chainRuns == 1, "C07 the typed continuation runs exactly once per request");
-    vp_assert(chainKind == (asError ? 1 : 0), "C07 a reply element becomes the typed result, an error is forwarded as the error");
-    if (asError) vp_assert(chainSendError, "C07 the forwarded error is the one the request completed with");
-    vp_assert(vp_task_completions - before == 2, "C07 raw and chained promise are each finished exactly once");
-}
